@@ -946,9 +946,9 @@ func c15BodyDump(d *document.Document) string {
 func (i *c15Inst) Key() string {
 	ma, _ := json.Marshal(i.a.m)
 	mb, _ := json.Marshal(i.b.m)
-	k := string(ma) + "|" + c15BodyDump(i.a.doc) + "|" + i.a.doc.VerifNotesDump()
+	k := string(ma) + "|" + c15BodyDump(i.a.doc) + "|" + i.a.doc.VerifNotesDump() + "|" + i.a.doc.VerifShallowState()
 	if i.b.doc != nil {
-		k += "||" + string(mb) + "|" + c15BodyDump(i.b.doc) + "|" + i.b.doc.VerifNotesDump()
+		k += "||" + string(mb) + "|" + c15BodyDump(i.b.doc) + "|" + i.b.doc.VerifNotesDump() + "|" + i.b.doc.VerifShallowState()
 	}
 	return rep.Hash(k)
 }
